@@ -178,7 +178,7 @@ def run(ctx):
             meta.append((i, pres, truths, coqs))
     # dimensional values without any unit: must be rejected
     miss = []
-    for i in range(ctx.n(6, 40)):
+    for i in range(ctx.n(16, 60)):
         t = truth(rng)
         t['H'] = 1234.5
         root = os.path.join(vlib.WORK, 'c12_miss_%d' % i)
@@ -186,7 +186,8 @@ def run(ctx):
         open(os.path.join(root, 'scheme.yaml'), 'w').write('patterns: []\n')
         open(os.path.join(root, 'library.yaml'), 'w').write(
             "groups:\n  'C(C)(H)3':\n    'thermochem':\n      T_ref: 298.15 K\n      %s\n"
-            % rng.choice(['H_ref: 12.5', 'S_ref: 3', 'Cp_data:\n        - [300 K, 2.5]', 'Cp_data:\n        - [300, 2.5 J/(mol K)]']))
+            % rng.choice(['H_ref: 12.5', 'S_ref: 3', 'Cp_data:\n        - [300 K, 2.5]', 'Cp_data:\n        - [300, 2.5 J/(mol K)]',
+                          'H_ref: 0', 'H_ref: 0.0', 'S_ref: -0.0', 'S_ref: 0', 'Cp_data:\n        - [300 K, 0]', 'Cp_data:\n        - [300 K, 0.0]']))
         miss.append({'op': 'load_tree', 'path': os.path.join(root, 'library.yaml')})
     res = c05.run_jobs(jobs + miss)
     rj, rm = res[:len(jobs)], res[len(jobs):]
